@@ -198,7 +198,7 @@ int fb_coerce_scalar_type(fb_parser_t *P, fb_symbol_t *sym, fb_scalar_type_t st,
         switch (value->type) {
         case vt_int:
             d = (double)value->i;
-            if ((int64_t)d != value->i) {
+            if (d >= 9223372036854775808.0 || (int64_t)d != value->i) {
                 /* We could make this a warning. */
                 error_sym(P, sym, "precision loss in 64-bit double type assignment");
                 value->type = vt_invalid;
@@ -209,7 +209,7 @@ int fb_coerce_scalar_type(fb_parser_t *P, fb_symbol_t *sym, fb_scalar_type_t st,
             return 0;
         case vt_uint:
             d = (double)value->u;
-            if ((uint64_t)d != value->u) {
+            if (d >= 18446744073709551616.0 || (uint64_t)d != value->u) {
                 /* We could make this a warning. */
                 error_sym(P, sym, "precision loss in 64-bit double type assignment");
                 value->type = vt_invalid;
@@ -230,7 +230,7 @@ int fb_coerce_scalar_type(fb_parser_t *P, fb_symbol_t *sym, fb_scalar_type_t st,
         switch (value->type) {
         case vt_int:
             f = (float)value->i;
-            if ((int64_t)f != value->i) {
+            if (f >= 9223372036854775808.0f || (int64_t)f != value->i) {
                 /* We could make this a warning. */
                 error_sym(P, sym, "precision loss in 32-bit float type assignment");
                 value->type = vt_invalid;
@@ -241,7 +241,7 @@ int fb_coerce_scalar_type(fb_parser_t *P, fb_symbol_t *sym, fb_scalar_type_t st,
             return 0;
         case vt_uint:
             f = (float)value->u;
-            if ((uint64_t)f != value->u) {
+            if (f >= 18446744073709551616.0f || (uint64_t)f != value->u) {
                 /* We could make this a warning. */
                 error_sym(P, sym, "precision loss in 32-bit float type assignment");
                 value->type = vt_invalid;
